@@ -9,7 +9,7 @@ THEOREMS = {
     "Dawgs.Props.C17": [P + t for t in [
         "pipe_fifo", "pipe_complete", "pipe_writer_never_waits_on_reader",
         "bf_pipe_refines", "bf_counter_inv", "bf_no_early_exit", "bf_exactly_once", "bf_measure", "bf_terminates",
-        "bf_live_ctx_error_recorded", "bf_error_cancels", "bf_return_joins_workers",
+        "bf_live_ctx_error_recorded", "bf_error_cancels", "bf_return_joins_workers", "bf_return_no_goroutine_left",
         "limit_skip_window", "range_partition_exact", "seq_helper_eq_spec", "traversePaths_eq_spec", "terminals_eq_spec",
         "acyclicNodes_eq_spec", "intermediaryPaths_eq_spec", "traversePaths_order_eq_spec", "paths_fit_finite", "c17_seq_paths",
         "c17_partial", "c17_full",
@@ -129,7 +129,9 @@ def extra_coverage(ctx, stats):
     cov = {
         "stated_not_proved": STATED_NOT_PROVED,
         "partial_runtime_aspects": [
-            "goroutine cleanup: observed (runtime.NumGoroutine settles back after every BreadthFirst run; pipe goroutine exit observed as closed reader channel), not proved",
+            "goroutine cleanup: in the LTS every worker has returned and the pipe goroutine has returned or is enabled to (bf_return_no_goroutine_left); that the Go "
+            "runtime really runs that last step is observed: runtime.NumGoroutine must settle back within 10 s after every BreadthFirst run and after every closed/cancelled "
+            "pipe, otherwise the monitors reject with class goroutine-leak",
             "wall-clock promptness: only a hang detector (>= 20 s, or 4 s of complete driver inactivity with nothing in flight)",
             "unsynchronised PathSegment.size roll-up: outside the LTS and outside the statement; counted by the -race pass of the thorough tier as an observation",
         ],
